@@ -13,8 +13,11 @@ CONSTANTS
   Fine = FALSE
   CheckRotTo = TRUE
   CommitAfterSync = TRUE
+  MaxTears = 0
+  TornMode = "refuse"
+  Asaps = {}
 VIEW TraceView
 CONSTRAINT HighWater
-INVARIANTS AppendOffsets LayoutAsSpecified ReplayExactObs TruncSafeObs FlipDetectedObs CommitMonotone CommitValidObs CommitDurableObs CommitsAtBounds StopCleanObs
+INVARIANTS AppendOffsets LayoutAsSpecified ReplayExactObs TruncSafeObs FlipDetectedObs CommitMonotone CommitValidObs CommitDurableObs CommitsAtBounds RefusalJustified StopCleanObs
 POSTCONDITION TraceAccepted
 CHECK_DEADLOCK FALSE
